@@ -88,13 +88,14 @@ def w_e2e(o, s, tol):
     return [301] + w_opts(o) + w_str(s) + w_bool(tol)
 
 
-_custom = []
+_custom = {}
 
 
-def custom_dbs():
+def custom_dbs(discards=True):
     """(parser database, converter database) declaring \\weblink{url}{text} and the environment derivation through the
-    public API, on top of the default databases"""
-    if not _custom:
+    public API, on top of the default databases; with `discards`, the converter database also re-declares \\mathrm and
+    \\textsc as discarded in categories inserted before the defining ones"""
+    if discards not in _custom:
         from pylatexenc.latexwalker import get_default_latex_context_db as wdef
         from pylatexenc.latex2text import get_default_latex_context_db as tdef, MacroTextSpec, EnvironmentTextSpec
         from pylatexenc.macrospec import MacroSpec, EnvironmentSpec, ParsingStateDeltaExtendLatexContextDb
@@ -112,7 +113,8 @@ def custom_dbs():
                                environments=[EnvironmentTextSpec('derivation', discard=False)])
         # a second category registered IN FRONT OF an existing one by name (not with prepend=True): it re-declares
         # \\mathrm (defined in latex-base) and \\textsc (defined in latex-approximations) as discarded
-        t.add_context_category('verif-discard-a', insert_before='latex-base', macros=[MacroTextSpec('mathrm', discard=True)])
-        t.add_context_category('verif-discard-b', insert_before='latex-approximations', macros=[MacroTextSpec('textsc', discard=True)])
-        _custom.append((w, t))
-    return _custom[0]
+        if discards:
+            t.add_context_category('verif-discard-a', insert_before='latex-base', macros=[MacroTextSpec('mathrm', discard=True)])
+            t.add_context_category('verif-discard-b', insert_before='latex-approximations', macros=[MacroTextSpec('textsc', discard=True)])
+        _custom[discards] = (w, t)
+    return _custom[discards]
